@@ -356,17 +356,29 @@ def run(tier="quick", seed=1, replay=None):
         ctx.world = cd.World(wd, ctx.binary, assets)
         MC = ("INIT Init\nNEXT Next\nINVARIANT IntactAlways\nINVARIANT BystandersUnchanged\nINVARIANT RedoSucceeds\n"
               "INVARIANT RedoConverges\nINVARIANT RestartCleans\nCHECK_DEADLOCK FALSE\n")
+        BASE = {"Names": '{"a", "b"}', "MaxPrior": 2 if quick else 3, "Variant": '"asis"', "BigBlobs": '{"G2"}', "TornPartFix": "TRUE"}
         if not replay:
-            for np in (False, True):
-                cfg = vf.write_cfg(wd, f"MC_Crash_{int(np)}.cfg", {"Names": '{"a", "b"}', "NoPrune": vf.tla_bool(np), "MaxPrior": 2 if quick else 3, "Variant": '"asis"'}, MC)
+            # with startup pruning the code as it is satisfies every invariant; without it (part files survive the restart) the
+            # design that knows the layer's size does, and the code as it is shows the known finding (RedoSucceeds) at design level
+            for name, extra, expect in (("prune", {"NoPrune": "FALSE", "KnowsLayerSize": "FALSE"}, None),
+                                        ("noprune_repaired", {"NoPrune": "TRUE", "KnowsLayerSize": "TRUE"}, None),
+                                        ("noprune_asis", {"NoPrune": "TRUE", "KnowsLayerSize": "FALSE", "MaxPrior": 2}, "RedoSucceeds")):
+                cfg = vf.write_cfg(wd, f"MC_Crash_{name}.cfg", {**BASE, **extra}, MC)
                 r = vf.tlc("Crash", cfg, wd, timeout=3000)
-                vf.tlc_must_pass(r, f"Crash.tla invariants (NoPrune={np})")
-                cov["states"] += r["distinct"]
-                cov["transitions"] += r["generated"]
+                if expect is None:
+                    vf.tlc_must_pass(r, f"Crash.tla invariants ({name})")
+                    cov["states"] += r["distinct"]
+                    cov["transitions"] += r["generated"]
+                elif f"Invariant {expect} is violated" not in r["out"]:
+                    raise vf.Inconclusive(f"Crash.tla ({name}) no longer shows the design-level counterexample of the known finding:\n" + r["out"][-1200:])
             # non-vacuity of the design-level invariants: each ordering mistake the property is about violates one of them
             cov["design_variants_rejected"] = {}
-            for var, inv in (() if quick else (("manifest-first", "IntactAlways"), ("delete-layers-first", "IntactAlways"), ("hardlink-copy", "BystandersUnchanged"))):
-                cfg = vf.write_cfg(wd, f"MC_Crash_{var}.cfg", {"Names": '{"a", "b"}', "NoPrune": "FALSE", "MaxPrior": 2, "Variant": f'"{var}"'}, MC)
+            for var, inv in (() if quick else (("manifest-first", "IntactAlways"), ("delete-layers-first", "IntactAlways"), ("hardlink-copy", "BystandersUnchanged"),
+                                               ("torn-part-file-not-handled", "RedoSucceeds"))):
+                k = {**BASE, "NoPrune": "FALSE", "KnowsLayerSize": "FALSE", "MaxPrior": 2, "Variant": f'"{var}"'}
+                if var == "torn-part-file-not-handled":      # the pinned code (before fix 4fe4b9592), part files kept
+                    k.update({"Variant": '"asis"', "NoPrune": "TRUE", "TornPartFix": "FALSE", "KnowsLayerSize": "TRUE"})
+                cfg = vf.write_cfg(wd, f"MC_Crash_{var}.cfg", k, MC)
                 r = vf.tlc("Crash", cfg, wd, timeout=3000)
                 if f"Invariant {inv} is violated" not in r["out"]:
                     raise vf.Inconclusive(f"Crash.tla variant {var} is no longer rejected by {inv}:\n" + r["out"][-1200:])
@@ -394,7 +406,7 @@ def run(tier="quick", seed=1, replay=None):
         if os.environ.get("VF_KEEP_TRACE"):
             shutil.copy(trace, os.environ["VF_KEEP_TRACE"])
         with open(os.path.join(wd, "Trace_Crash.cfg"), "w") as f:
-            f.write('CONSTANTS Variant = "asis"\n' + vf.TRACE_CFG)
+            f.write('CONSTANTS Variant = "asis" BigBlobs = {} TornPartFix = TRUE KnowsLayerSize = FALSE\n' + vf.TRACE_CFG)
         vf.copy_specs(wd)
         v = vf.validate_trace("Trace_Crash", "Trace_Crash.cfg", trace, wd, timeout=3000)
         by_t = {s["id"]: s for s in scs}
